@@ -180,9 +180,40 @@ def stepD (d : DState) (toks : List String) : DState × String :=
       else
         -- the model compiler's routes under the Lean Envoy semantics
         (d, showDecision (evalRoutes re (compile d.ctx d.vs) req))
-  | _ =>
-    match vhStep d.vh toks with
-    | some (v, o) => ({ d with vh := v }, o)
+  | ["dom", h, aliases, isIPs, pt, addr, lp, port, pd, proxyless] =>
+    let svc : DomSvc := { hostname := dec h, aliases := decList aliases, isIP := (decList isIPs).map tokBool,
+                          passthroughKube := tokBool pt, addresses := if dec addr == "" then [] else [dec addr] }
+    let r := generateVirtualHostDomains svc lp.toNat! port.toNat! (dec pd) (tokBool proxyless)
+    (d, "D:" ++ encList r.1 ++ " A:" ++ encList r.2)
+  | ["known", l] => ({ d with vh := { d.vh with known := decList l } }, "ok")
+  | ["vh", name, doms, alts] =>
+    let v := d.vh
+    let n := dec name
+    if v.names.contains n then (d, "dup-name") else
+    let r := dedupeLoop (decList alts) v.known (decList doms) v.vhd
+    let v' := { v with names := n :: v.names, vhd := r.2 }
+    if r.1.isEmpty then ({ d with vh := v' }, "empty")
+    else ({ d with vh := { v' with vhosts := v'.vhosts ++ [{ name := n, domains := r.1, routes := [] }] } }, "kept:" ++ encList r.1)
+  | ["sel", a] =>
+    match selectVHost d.vh.vhosts (dec a) with
+    | some v => (d, enc v.name)
+    | none => (d, "none")
+  | ["msh", needle, sp, wc] =>
+    match mostSpecificHostMatch (dec needle) (decList sp) (decList wc) with
+    | some h => (d, enc h)
+    | none => (d, "none")
+  | ["selvs", svcs, vss] =>
+    let l := if vss == "-" then [] else (vss.splitOn ";")
+    let named := (List.range l.length).zip l |>.map (fun p => ("vs" ++ toString p.1, decList p.2))
+    (d, encList (selectVS (decList svcs) named))
+  | ["acc"] => ({ d with vh := { d.vh with acc := d.vh.acc ++ compile d.ctx d.vs } }, "ok")
+  | ["sortv"] => (d, showRoutes (sortVHostRoutes d.vh.acc))
+  | "sreq" :: f =>
+    match decReq f with
     | none => (d, "bad-op")
+    | some (req, re) =>
+      (d, showDecision (evalRoutes re (sortVHostRoutes d.vh.acc) req) ++ " " ++ showDecision (evalRoutes re d.vh.acc req)
+          ++ " safe=" ++ boolTok (sortSafe re d.vh.acc req))
+  | _ => (d, "bad-op")
 
 end IstioModel.C12
